@@ -158,6 +158,19 @@ def rule_track(ctx):
     ctx.ob('C15-R4', lw, 'out-of-range distance refused before indexing', ok,
            '`if distance not in self: raise` dominates the lookup' if ok else
            'an out-of-range distance reaches the bisect lookup')
+    loc_ = m.func('GroundTrack.location')
+    gl = CFG(loc_.node)
+    doml = gl.dominators(edge_ok=lambda a, b, lab: lab != 'e')
+    chk = [n for n in gl.nodes if n.stmt is not None and n.kind == 'stmt' and
+           any(call_name(c) == 'self.lookup_waypoint' and c.args and norm(c.args[0]) == loc_.params[1] for c in calls_in(n.stmt))]
+    retsl = [n for n in gl.nodes if n.kind == 'stmt' and isinstance(n.stmt, ast.Return)]
+    ok = bool(chk) and all(chk[0].id in doml[r.id] for r in retsl)
+    early = [r for r in retsl if not chk or chk[0].id not in doml[r.id]]
+    ctx.ob('C15-R4', loc_, 'location() range-checks the distance before producing any point', ok,
+           'the refusing lookup dominates every return' if ok else
+           (f'`{early[0].text()[:60]}` (line {early[0].line}) returns a point before the range check: an out-of-range '
+            'distance is silently clamped to an end waypoint instead of being refused'),
+           line=(early[0].line if early else loc_.node.lineno))
     cont = m.func('GroundTrack.__contains__')
     r = [n for n in walk_no_nested(cont.node) if isinstance(n, ast.Return)]
     ok = len(r) == 1 and norm(r[0].value) in (
